@@ -17,14 +17,17 @@ CLAIMED = {
              'sequence the library accepts, reading the written file and running it on the featured, fast and native models '
              '(loaded exactly as fjm_run._run_native groups the Reader\'s dict, every storage layout and knob) gives the cause '
              'with fault address, op count, output, remaining input, last-ops list and final in-segment memory of the machine '
-             'definition on the declared image (C01_file_run_python, C01_file_run_native, C01_file_run_all_engines_agree).',
+             'definition on the declared image (C01_file_run_python, C01_file_run_native, C01_file_run_all_engines_agree). '
+             'Source tie (Properties/C01_source.v): the Reader memory methods and the bodies of _run_fast/_run_featured are '
+             're-translated from the current Python source on every run (gen_facts_engpy.py -> Gen/Facts_EngPy.v, IR of '
+             'Model/PyIR.v) and proved equal to Model/EngPy.v for every state, then composed into a refinement of the machine.',
         design_ref='DESIGN.md section 4, C01',
         note='Coq kernel + vm_compute; hand transcriptions tied to the code by per-run correspondence on generated images x '
              '3 engines (cause/ops/fault/output/last-ops/read-back/storage mode); the native theorems are guarded only by '
              'top_guard = known finding F1 (no op in the last 2w bits at w=64; C01_native_refuted is the witness); the slot '
              'table is abstracted as a finite map, OOM/signals/IO-callback exceptions are not modelled; C text, compiler and '
              'CPython are tied by the campaign, not proved.',
-        technique='Coq refinement proofs (engine models = machine definition) + model/implementation correspondence evaluated in Coq'),
+        technique='Coq refinement proofs (engine models = machine definition) + Python-source translator with kernel-checked equality to the model + model/implementation correspondence evaluated in Coq'),
     'C02': dict(
         category='proof',
         text='C02_sound (Qed, one theorem): for every primitive program, width and fjm version, if the transcription of the '
@@ -265,10 +268,11 @@ CLAIMED = {
              'definition; the except ladder is modelled; every IO call index x 4 exception kinds x 3 engines is enumerated per '
              'generated program and compared in Coq.',
         design_ref='DESIGN.md section 4, C18',
-        note='partial: asynchronous signal delivery at an arbitrary instruction is a runtime behaviour the model cannot '
-             'exhibit (PyErr_CheckSignals cadence not modelled); only device-raised KeyboardInterrupt is enumerated; the native '
-             'theorems carry top_guard (F1). The campaign evaluates the engine fault models next to the machine model on every '
-             'case. F12 fixed.',
+        note='partial: the instant at which an asynchronous signal lands is a runtime behaviour the model cannot exhibit; real '
+             'signals are delivered at random instants of never-halting programs and every stop is judged by the machine after '
+             'exactly the reported op count (Model/SignalCase.v, C18_signal_verdict_sound); known finding F28: the two Python '
+             'loops can stop inside an op. The native theorems carry top_guard (F1). The campaign evaluates the engine fault '
+             'models next to the machine model on every case. F12 fixed.',
         technique='Coq prefix-consistency theorems + complete fault enumeration per program compared in Coq'),
     'C19': dict(
         category='proof',
